@@ -185,6 +185,23 @@ def sig_of(inv, e):
     return "%s:%s" % (context_of(inv, e), effect_of(inv, e))
 
 
+MON_FIELDS = ("level", "kind", "ids", "M", "mr", "rd", "notes", "outcome", "respok", "ret", "div", "exit", "hasexp")
+BODY_FIELDS = ("from", "primed", "n", "cls", "knd", "al", "c", "d")
+
+
+def slim(r):
+    if r["level"] == "scan":
+        return {k: r[k] for k in ("level", "n", "cls", "knd", "yielded", "truth", "ended")}
+    o = {k: r[k] for k in MON_FIELDS}
+    o["bodies"] = [{k: b[k] for k in BODY_FIELDS} for b in r["bodies"]]
+    o["recon"] = [{"sent": x["sent"], "outs": x["outs"]} for x in r["recon"]]
+    x = r["exp"]
+    o["exp"] = {"bodies": [{k: b[k] for k in BODY_FIELDS} for b in x["bodies"]],
+                "recon": [{"sent": y["sent"], "outs": y["outs"]} for y in x["recon"]],
+                "rd": x["rd"], "notes": x["notes"], "outcome": x["outcome"]}
+    return o
+
+
 def simplicity(e):
     if e["level"] == "scan":
         return (0, e["off"])
@@ -206,16 +223,15 @@ def describe(inv, e):
 
 # --------------------------------------------------------------------------
 
-TLC_BUDGET = 5
 
 
-def run_jobs(jobs):
-    """jobs: (name, workers, cfg text). Runs them concurrently, never more than TLC_BUDGET TLC workers at once."""
+def run_jobs(jobs, budget):
+    """jobs: (name, workers, cfg text). Runs them concurrently, never more than `budget` TLC workers at once."""
     results, cond, used = {}, threading.Condition(), [0]
 
     def one(name, w, txt):
         with cond:
-            while used[0] + w > TLC_BUDGET:
+            while used[0] + w > budget:
                 cond.wait()
             used[0] += w
         try:
@@ -236,6 +252,15 @@ def run_jobs(jobs):
 
 
 def run(tier, seed, replay):
+    ctl = {}
+    try:
+        return _run(tier, seed, replay, ctl)
+    finally:
+        if ctl.get("thread") is not None:
+            ctl["thread"].join()   # never leave a TLC design check running behind
+
+
+def _run(tier, seed, replay, ctl):
     v = vlib.Verdict(PID, tier, seed)
     v.assumptions = [
         "time is virtual (testing/synctest); 'never hangs' = the call has returned one virtual hour after the last server action",
@@ -254,18 +279,29 @@ def run(tier, seed, replay):
     rng = random.Random(seed)
     quick = tier == "quick"
 
-    # 1. + 2. TLC: design checks, vacuity witnesses, behaviour export (run side by side, at most TLC_BUDGET workers in all)
+    # 1. TLC design checks and vacuity witnesses: started now, joined before the verdict (they do not feed the replay)
     red = '{"bnd", "id", "data", "datafull"}'   # with FixScanner every class inside an event behaves like "data"
-    jobs = []
+    design, dres, derr = [], {}, []
     if not replay:
-        jobs += [("mc_fixed", 2, cfg_text(fix="TRUE", tail=PROP_INVS, ms="{2}" if quick else "{2, 3}", cuts=2,
-                                          schemes='{"nested"}' if quick else '{"dec", "nested"}',
-                                          classes=red if quick else ALL_CLASSES)),
-                 ("mc_asis", 2, cfg_text(tail=ASIS_INVS, ms="{2}" if quick else "{2, 3}", cuts=2,
-                                         schemes='{"nested"}' if quick else '{"dec", "nested"}'))]
+        design += [("mc_fixed", 2, cfg_text(fix="TRUE", tail=PROP_INVS, ms="{2}" if quick else "{2, 3}", cuts=2,
+                                            schemes='{"nested"}' if quick else '{"dec", "nested"}',
+                                            classes=red if quick else ALL_CLASSES)),
+                   ("mc_asis", 2, cfg_text(tail=ASIS_INVS, ms="{2}" if quick else "{2, 3}", cuts=2,
+                                           schemes='{"nested"}' if quick else '{"dec", "nested"}'))]
         base = cfg_text(tail="", ms="{2}", cuts=2, schemes='{"dec"}', classes='{"bnd", "data"}')
-        jobs += [("wit:" + w, 1, base.replace("CHECK_DEADLOCK", "INVARIANT %s\nCHECK_DEADLOCK" % w)) for w in WITNESSES]
-    jobs += [
+        design += [("wit:" + w, 1, base.replace("CHECK_DEADLOCK", "INVARIANT %s\nCHECK_DEADLOCK" % w)) for w in WITNESSES]
+
+    def run_design():
+        try:
+            dres.update(run_jobs(design, 3))
+        except Exception as ex:  # re-raised in the main thread
+            derr.append(ex)
+    dthread = threading.Thread(target=run_design)
+    dthread.start()
+    ctl["thread"] = dthread
+
+    # 2. behaviours exported by TLC
+    jobs = [
         ("gen1", 1, cfg_text(cuts=1)),
         ("gen2", 1, cfg_text(cuts=2, shapes="TwoShapes", schemes='{"nested"}', ms="{2}", mrs="{1, 2}")),
         ("gen3", 1, cfg_text(cuts=3, shapes="PrimedShapes", schemes='{"dec"}', ms="{2}", mrs="{1, 2}",
@@ -273,16 +309,17 @@ def run(tier, seed, replay):
                              answers='{"terr", "ok"}')),
         ("gen1L", 1, cfg_text(cuts=1, kinds='{"post"}', shapes="FirstOnly", schemes='{"dec"}', ms="{12}", mrs="{2}", answers='{"ok"}')),
     ]
-    results = run_jobs(jobs)
+    try:
+        results = run_jobs(jobs, 3)
+    except Exception:
+        dthread.join()
+        raise
     for name, _, _ in jobs:
         res = results[name]
-        if name.startswith("wit:"):
-            if res.violation != name[4:]:
-                raise vlib.MachineryError("vacuity: witness %s not reachable (%s)" % (name[4:], res.error or res.violation))
-            continue
         vlib.tlc_must_pass(res, name)
-        v.add_tlc("StreamCli " + name + (" (behaviour export)" if name.startswith("gen") else ""), res)
+        v.add_tlc("StreamCli %s (behaviour export)" % name, res)
         if not res.ok:
+            dthread.join()
             raise vlib.MachineryError("StreamCli.tla %s failed (%s)" % (name, res.violation))
     exported = {}
     for name in ("gen1", "gen2", "gen3", "gen1L"):
@@ -319,7 +356,7 @@ def run(tier, seed, replay):
         if rep.get("exp"):
             meta[rep["case"]["id"]] = rep["exp"]
     else:
-        want = {"gen1": 4000 if quick else 10 ** 9, "gen2": 2500 if quick else 10 ** 9, "gen3": 2500 if quick else 12000}
+        want = {"gen1": 3500 if quick else 10 ** 9, "gen2": 2000 if quick else 10 ** 9, "gen3": 2000 if quick else 40000}
         for name in ("gen1", "gen2", "gen3"):
             pool = exported[name]
             if name != "gen1":
@@ -377,8 +414,9 @@ def run(tier, seed, replay):
         else:
             r["exp"], r["hasexp"], r["pred"] = dummy, False, None
             noexp += 1
-    obs_path = os.path.join(out, "obs.ndjson")
-    vlib.write_ndjson(obs_path, rows)
+    vlib.write_ndjson(os.path.join(out, "obs_full.ndjson"), rows)
+    obs_path = os.path.join(out, "obs.ndjson")   # what the monitor reads: the same lines without the fields it does not use
+    vlib.write_ndjson(obs_path, [slim(r) for r in rows])
 
     # 5. monitor: the verdict
     fails, mres = vlib.run_monitor("StreamCliMon", "StreamCliMon.cfg", obs_path, timeout=1800, heap_gb=8)
@@ -423,6 +461,21 @@ def run(tier, seed, replay):
         if r["level"] != "scan" and len(r["bodies"]) >= 2 and shown < 5 and r["outcome"] in ("resp", "open"):
             v.sample({k: r[k] for k in ("id", "cfg", "bodies", "recon", "rd", "notes", "outcome", "ret")})
             shown += 1
+
+    # the design checks must have passed
+    dthread.join()
+    if derr:
+        raise derr[0]
+    for name, _, _ in design:
+        res = dres[name]
+        if name.startswith("wit:"):
+            if res.violation != name[4:]:
+                raise vlib.MachineryError("vacuity: witness %s not reachable (%s)" % (name[4:], res.error or res.violation))
+            continue
+        vlib.tlc_must_pass(res, name)
+        v.add_tlc("StreamCli " + name, res)
+        if not res.ok:
+            raise vlib.MachineryError("StreamCli.tla %s: design check failed (%s)" % (name, res.violation))
 
     # verdicts
     confirmed, unconfirmed, unpredicted = 0, 0, 0
